@@ -16,13 +16,10 @@
      is_mod_gen_eq                      is_measurement_outcome_distribution = valid
      is_mod_gen_bad_entry               ... a negative / non-int tuple entry: False (outside the model)
      is_normalized_gen_eq               is_normalized                    = close1 o mass
-     normalize_gen_eq                   normalize_measurement_outcome_distribution ~ normalize_dict
-                                        (distinct keys; total not in (0, float_min))
-     normalize_gen_tiny                 ... total in (0, float_min): ValueError (the model has no such branch)
-     init_gen_eq / init_gen_make_eq     __init__ ~ make_raw / make       (same guard on the total)
-     init_gen_tiny                      ... total in (0, float_min), normalize on: ValueError
+     normalize_gen_eq                   normalize_measurement_outcome_distribution ~ normalize_dict   (distinct keys)
+     init_gen_eq / init_gen_make_eq     __init__ ~ make_raw / make       (all raw dicts / distinct keys)
      save_gen_eq                        change_tuple_dict_keys_to_comma_separated_integers = save  (distinct keys)
-     sub_gen_eq                         subdistribution ~ fst o subdistribution  (keys of one length, guard on the total)
+     sub_gen_eq                         subdistribution ~ fst o subdistribution  (keys of one length: the class invariant)
 
    The proofs refer to the generated definitions only by the names derived from the FUNCTION names; names of
    Python locals do not occur. *)
@@ -61,8 +58,9 @@ Proof. destruct a; cbn; [apply deq_refl|reflexivity]. Qed.
 Lemma req_of_eq a b : a = b -> req a b.
 Proof. intros ->. apply req_refl. Qed.
 
-(* the total in the branch of the code that the model leaves out: 0 < s < sys.float_info.min *)
-Definition tiny (s : Q) : bool := negb (Qle_bool s 0) && negb (Qle_bool py_float_min s).
+(* sys.float_info.min as read by the translator's support file is the model's constant *)
+Lemma float_min_eq : py_float_min = float_min.
+Proof. reflexivity. Qed.
 
 (* ------------------------------------------------------------------ booleans over Q respect == *)
 Lemma Qle_bool_wd a b c d : a == b -> c == d -> Qle_bool a c = Qle_bool b d.
@@ -73,8 +71,6 @@ Lemma Qeq_bool_wd a b c d : a == b -> c == d -> Qeq_bool a c = Qeq_bool b d.
 Proof.
   intros H1 H2. apply eq_true_iff_eq. rewrite !Qeq_bool_iff. rewrite H1, H2. reflexivity.
 Qed.
-Lemma tiny_wd s t : s == t -> tiny s = tiny t.
-Proof. intro H. unfold tiny. rewrite (Qle_bool_wd s t 0 0 H), (Qle_bool_wd py_float_min py_float_min s t); [reflexivity| |exact H| ]; reflexivity. Qed.
 
 (* ------------------------------------------------------------------ keys *)
 Lemma pytup_eqb_ekey a b : pytup_eqb (ekey a) (ekey b) = key_eqb a b.
@@ -420,16 +416,16 @@ Proof.
   rewrite H. reflexivity.
 Qed.
 
-Theorem normalize_gen_eq d : NoDup (map fst d) -> tiny (mass d) = false ->
+Theorem normalize_gen_eq d : NoDup (map fst d) ->
   req (normalize_measurement_outcome_distribution_gen num_Q (edist d)) (eres (normalize_dict d)).
 Proof.
-  intros Hnd Htiny. unfold normalize_measurement_outcome_distribution_gen, normalize_dict. cbv zeta.
+  intros Hnd. unfold normalize_measurement_outcome_distribution_gen, normalize_dict. cbv zeta.
   rewrite values_edist. pose proof (sum_mass d) as Hn. set (norm := py_sum num_Q (map snd d)) in *.
   cbn [n_eqb n_ltb n_int n_lit num_Q]. change (inject_Z 0) with 0. change (inject_Z 1) with 1.
   rewrite (Qeq_bool_wd norm (mass d) 0 0 Hn (Qeq_refl 0)).
   destruct (Qeq_bool (mass d) 0) eqn:E0; [reflexivity|].
   change (negb (Qle_bool norm 0) && negb (Qle_bool py_float_min norm))%bool with (tiny norm).
-  rewrite (tiny_wd norm (mass d) Hn), Htiny.
+  rewrite (tiny_wd norm (mass d) Hn). destruct (tiny (mass d)); [reflexivity|].
   rewrite (Qeq_bool_wd norm (mass d) 1 1 Hn (Qeq_refl 1)).
   destruct (Qeq_bool (mass d) 1) eqn:E1; [apply req_refl|].
   assert (Hn0 : Qeq_bool norm 0 = false) by (rewrite (Qeq_bool_wd norm (mass d) 0 0 Hn (Qeq_refl 0)); exact E0).
@@ -438,18 +434,6 @@ Proof.
   - intros D key v Hl. unfold py_dict_getitem. rewrite Hl. cbn [bind].
     pose proof (truediv_Q norm Hn0) as Ht. cbn [n_lit num_Q] in Ht. rewrite Ht. reflexivity.
   - apply NoDup_keys_edist. exact Hnd.
-Qed.
-
-(* the branch that the model leaves out *)
-Theorem normalize_gen_tiny d : tiny (mass d) = true ->
-  normalize_measurement_outcome_distribution_gen num_Q (edist d) = Raise ValueError.
-Proof.
-  intro Htiny. unfold normalize_measurement_outcome_distribution_gen. cbv zeta.
-  rewrite values_edist. pose proof (sum_mass d) as Hn. set (norm := py_sum num_Q (map snd d)) in *.
-  cbn [n_eqb n_ltb n_int n_lit num_Q]. change (inject_Z 0) with 0.
-  destruct (Qeq_bool norm 0); [reflexivity|].
-  change (negb (Qle_bool norm 0) && negb (Qle_bool py_float_min norm))%bool with (tiny norm).
-  rewrite (tiny_wd norm (mass d) Hn), Htiny. reflexivity.
 Qed.
 
 (* ------------------------------------------------------------------ MeasurementOutcomeDistribution.__init__ *)
@@ -466,10 +450,10 @@ Lemma preprocess_nodup r d : preprocess r = Ok d -> NoDup (map fst d).
 Proof. intro H. eapply pre_fold_nodup; [exact H|constructor]. Qed.
 
 Lemma init_after_pre input d n :
-  preprocess_distibution_dict_gen num_Q input = Ret (edist d) -> NoDup (map fst d) -> tiny (mass d) = false ->
+  preprocess_distibution_dict_gen num_Q input = Ret (edist d) -> NoDup (map fst d) ->
   req (MeasurementOutcomeDistribution_init_gen num_Q input n) (eres (make d n)).
 Proof.
-  intros Hpre Hnd Htiny. unfold MeasurementOutcomeDistribution_init_gen. rewrite Hpre. cbn [bind]. cbv zeta.
+  intros Hpre Hnd. unfold MeasurementOutcomeDistribution_init_gen. rewrite Hpre. cbn [bind]. cbv zeta.
   rewrite is_mod_gen_eq. cbn [bind]. unfold make. destruct (valid d); cbn [negb]; [|reflexivity].
   rewrite is_normalized_gen_eq. cbn [bind]. destruct (close1 (mass d)); [apply req_refl|].
   destruct n; [|apply req_refl]. rewrite bind_ret. apply normalize_gen_eq; assumption.
@@ -482,45 +466,17 @@ Lemma preprocess_gen_tuples d : NoDup (map fst d) -> preprocess_distibution_dict
 Proof. intro H. rewrite edist_eraw, preprocess_gen_eq, preprocess_tuples by exact H. rewrite <- edist_eraw. reflexivity. Qed.
 
 (* the constructor on an already preprocessed dictionary *)
-Theorem init_gen_make_eq d n : NoDup (map fst d) -> tiny (mass d) = false ->
+Theorem init_gen_make_eq d n : NoDup (map fst d) ->
   req (MeasurementOutcomeDistribution_init_gen num_Q (edist d) n) (eres (make d n)).
-Proof. intros Hnd Ht. apply init_after_pre; [apply preprocess_gen_tuples; exact Hnd|exact Hnd|exact Ht]. Qed.
+Proof. intros Hnd. apply init_after_pre; [apply preprocess_gen_tuples; exact Hnd|exact Hnd]. Qed.
 
 (* the constructor on a raw dictionary (str and tuple keys) *)
-Theorem init_gen_eq r n : (forall d, preprocess r = Ok d -> tiny (mass d) = false) ->
+Theorem init_gen_eq r n :
   req (MeasurementOutcomeDistribution_init_gen num_Q (eraw r) n) (eres (make_raw r n)).
 Proof.
-  intro Ht. unfold make_raw. destruct (preprocess r) as [d|e] eqn:E.
-  - apply init_after_pre; [rewrite preprocess_gen_eq, E; reflexivity|eapply preprocess_nodup; exact E|apply Ht; reflexivity].
+  unfold make_raw. destruct (preprocess r) as [d|e] eqn:E.
+  - apply init_after_pre; [rewrite preprocess_gen_eq, E; reflexivity|eapply preprocess_nodup; exact E].
   - unfold MeasurementOutcomeDistribution_init_gen. rewrite preprocess_gen_eq, E. reflexivity.
-Qed.
-
-(* the branch that the model leaves out, seen through the constructor: a valid dictionary whose total lies in
-   (0, float_min) is rejected with ValueError when normalisation is on (the model normalises it) *)
-Lemma tiny_not_close s : tiny s = true -> close1 s = false.
-Proof.
-  intro Ht. destruct (close1 s) eqn:E; [|reflexivity]. exfalso.
-  unfold tiny in Ht. apply andb_true_iff in Ht. destruct Ht as [H0 Hm].
-  assert (Hpos : 0 < s).
-  { apply Qnot_le_lt. intro Hle. apply Qle_bool_iff in Hle. rewrite Hle in H0. discriminate H0. }
-  assert (Hsmall : s < 1 # 2).
-  { apply Qnot_le_lt. intro Hle. assert (Hc : py_float_min <= s).
-    { eapply Qle_trans; [|exact Hle]. unfold py_float_min. unfold Qle. cbn [Qnum Qden]. vm_compute. discriminate. }
-    apply Qle_bool_iff in Hc. rewrite Hc in Hm. discriminate Hm. }
-  apply close1_spec in E. unfold rel_tol in E.
-  assert (Ha : Qabs (s - 1) == 1 - s).
-  { rewrite Qabs_Qminus. apply Qabs_pos. lra. }
-  assert (Hb : Qabs s == s) by (apply Qabs_pos; lra).
-  rewrite Ha, Hb in E. destruct E as [E|E]; lra.
-Qed.
-
-Theorem init_gen_tiny d : NoDup (map fst d) -> valid d = true -> tiny (mass d) = true ->
-  MeasurementOutcomeDistribution_init_gen num_Q (edist d) true = Raise ValueError.
-Proof.
-  intros Hnd Hv Ht. unfold MeasurementOutcomeDistribution_init_gen.
-  rewrite preprocess_gen_tuples by exact Hnd. cbn [bind]. cbv zeta.
-  rewrite is_mod_gen_eq, Hv. cbn [bind]. rewrite is_normalized_gen_eq, (tiny_not_close _ Ht). cbn [bind].
-  rewrite normalize_gen_tiny by exact Ht. reflexivity.
 Qed.
 
 (* ------------------------------------------------------------------ change_tuple_dict_keys_to_comma_separated_integers *)
@@ -658,11 +614,11 @@ Lemma len_key_pkey k : py_len_key (pkey k) = Ret (Z.of_nat (List.length k)).
 Proof. unfold pkey, py_len_key, py_len, ekey. rewrite map_length. reflexivity. Qed.
 
 Theorem sub_gen_eq qs d :
-  Forall (fun kv => List.length (fst kv) = nsub d) d -> tiny (mass d) = false ->
+  Forall (fun kv => List.length (fst kv) = nsub d) d ->
   req (MeasurementOutcomeDistribution_subdistribution_gen num_Q (edist d) (map Z.of_nat qs))
       (eres (fst (subdistribution qs d))).
 Proof.
-  intros Hlen Htiny. unfold MeasurementOutcomeDistribution_subdistribution_gen, subdistribution. cbv zeta.
+  intros Hlen. unfold MeasurementOutcomeDistribution_subdistribution_gen, subdistribution. cbv zeta.
   destruct qs as [|q0 qr]; [reflexivity|].
   rewrite py_max_of_nat. cbn [bind].
   destruct d as [|[k0 v0] r]; [reflexivity|].
@@ -676,9 +632,7 @@ Proof.
   unfold py_items, py_dict_empty. change (@nil (pykey * num num_Q)) with (edist []).
   rewrite (marg_loop (q0 :: qr)) with (acc := @nil (key * Q)).
   - cbn [bind]. rewrite is_normalized_gen_eq. cbn [bind]. cbv zeta. rewrite bind_ret.
-    rewrite marg_counts_fold. apply init_gen_make_eq.
-    + apply fold_nodup. constructor.
-    + rewrite <- marg_counts_fold. rewrite (tiny_wd _ _ (marg_mass (q0 :: qr) ((k0, v0) :: r))). exact Htiny.
+    rewrite marg_counts_fold. apply init_gen_make_eq. apply fold_nodup. constructor.
   - intros k v A Hk. rewrite (proj_map_res k (q0 :: qr) Hk). cbn [bind]. cbv zeta.
     change (PKTup (ekey (proj (q0 :: qr) k))) with (pkey (proj (q0 :: qr) k)).
     rewrite get_edist. cbn [n_add num_Q]. rewrite (set_edist A). reflexivity.
